@@ -232,6 +232,16 @@ func (j *job) sendChunks(chunks []pb.Chunk) error {
 			// 			 be reported
 			data, err := loadChunkData(chunk, chunkData, j.fs)
 			if err != nil {
+				if vfs.IsNotExist(err) {
+					// the snapshot image has been removed while it was being sent, e.g.
+					// the replica was restarted on this NodeHost after a more recent
+					// snapshot was recorded, its start-up cleanup only keeps the most
+					// recent one. report a failed send, raft will retry with the
+					// current snapshot.
+					plog.Warningf("snapshot file %s of %s removed while being sent",
+						chunk.Filepath, dn(chunk.ShardID, chunk.ReplicaID))
+					return err
+				}
 				panicNow(err)
 			}
 			chunk.Data = data
